@@ -19,6 +19,12 @@ def _dispatch(prop: str, tier: str):
         from . import conccheck
         conccheck.check_into(rep, tier)
         return rep
+    if prop == "C08":
+        from . import conccheck, policycheck
+        rep = policycheck.check("C08", tier)
+        # ... and for concurrently running calls: when all are over, the breaker admits again
+        conccheck.check_into(rep, tier, prop="C08")
+        return rep
     if prop == "C09":
         from . import conccheck, policycheck
         rep = policycheck.check("C09", tier)
